@@ -118,6 +118,7 @@ add("C12",
 
 # ---------------------------------------------------------------- C16
 add("C16",
+    V("language-map-hand-edited", "C16", [("dateparser/data/languages_info.py", '    "nnh": ["nnh"],\n', '    "nnh": ["nnh"],\n    "no": ["nb", "nn"],\n')], "fire", "C16.R3", note="seeded change C16-6"),
     V("alternate-entries-named-after-their-spelling", "C16", [("dateparser/timezone_parser.py", "                    search_regex_parts.append(re.sub(replace, replacewith, tz_obj[0]))\n                    yield get_offset(tz_obj, regex, repl=replace, replw=replacewith)\n", "                    alternate = re.sub(replace, replacewith, tz_obj[0])\n                    search_regex_parts.append(alternate)\n                    yield get_offset((alternate, tz_obj[1]), regex, repl=replace, replw=replacewith)\n")], "fire", "C16.R2", note="seeded changes C16-3 / C19-3 / C19-5"),
     V("rewrite-rule-applied-once", "C16", [("dateparser/timezone_parser.py", "                    re.sub(repl, replw, regex % tz_obj[0]), re.IGNORECASE\n", "                    re.sub(repl, replw, regex % tz_obj[0], count=1), re.IGNORECASE\n")], "fire", "C16.R2", note="seeded changes C11-6 / C16-5"),
     V("twin-alternate-spelling-in-a-local", "C16", [("dateparser/timezone_parser.py", "                    search_regex_parts.append(re.sub(replace, replacewith, tz_obj[0]))\n                    yield get_offset(tz_obj, regex, repl=replace, replw=replacewith)\n", "                    alternate = re.sub(replace, replacewith, tz_obj[0])\n                    search_regex_parts.append(alternate)\n                    yield get_offset(tz_obj, regex, repl=replace, replw=replacewith)\n")], "silent"),
@@ -394,6 +395,8 @@ add("C15",
 
 # ---------------------------------------------------------------- C18
 add("C18",
+    V("year-abbreviation-only-before-space-or-end", "C18", [(DATE, 'RE_SANITIZE_RUSSIAN = re.compile(r"([\\W\\d])\\u0433\\.", flags=re.I | re.U)', 'RE_SANITIZE_RUSSIAN = re.compile(r"([\\W\\d])\\u0433\\.(?=\\s|$)", flags=re.I | re.U)')], "fire", "C18.R4",
+      note="seeded change C18-6: '2015 г.:' keeps its 'г'"),
     V("period-regex-ascii-digits", "C18", [(DATE, 'RE_SANITIZE_PERIOD = re.compile(r"(?<=[^\\d\\s])\\.", flags=re.U)', 'RE_SANITIZE_PERIOD = re.compile(r"(?<=[^0-9\\s])\\.", flags=re.U)')], "fire", "C18.R1"),
     V("croatian-regex-ascii-digits", "C18", [(DATE, 'r"(\\d+)\\.\\s?(\\d+)\\.\\s?(\\d+)\\.( u)?"', 'r"([0-9]+)\\.\\s?([0-9]+)\\.\\s?([0-9]+)\\.( u)?"')], "fire", "C18.R1"),
     V("new-raw-regex-with-ascii-class", "C18", [(DATE, "    date_string = RE_SANITIZE_ON.sub(r\"\\1\", date_string)\n", "    date_string = RE_SANITIZE_ON.sub(r\"\\1\", date_string)\n    date_string = re.sub(r\"(?<=[0-9])(st|nd|rd|th)\\b\", \"\", date_string)\n")], "fire", "C18.R1"),
